@@ -6,7 +6,8 @@ what asyncio's selector socket transport shows it (checked against CPython 3.12 
 
 * `create_connection`: the protocol factory is called when the handshake is over, `connection_made` is run through
   `call_soon`, the coroutine returns one loop iteration later; a closed port gives `ConnectionRefusedError`, a host
-  that does not answer gives `TimeoutError(ETIMEDOUT)` after `syn_timeout` seconds (Linux: 127 s);
+  that does not answer gives `TimeoutError(ETIMEDOUT)` after `syn_timeout` seconds (Linux: 127 s); a host name listed
+  in `fabric.slow_names` is resolved first, which takes the time given there (event "resolved");
 * the accepting side: one link delay later the connection is taken from the listening socket's backlog
   (`_accept_connection`, event "accepting"); one loop iteration later the listener's protocol factory is called and the
   transport made (`_accept_connection2`, event "accepted"); `connection_made` runs one further iteration later (event
@@ -17,6 +18,17 @@ what asyncio's selector socket transport shows it (checked against CPython 3.12 
 * `write()` after `close()` is dropped (and recorded), `close()` flushes what was written, `connection_lost(None)` comes
   through `call_soon`; the other end sees EOF after the link delay (`eof_received()`, then it is closed unless that
   returned true); `abort()` makes the other end lose the connection with `ConnectionResetError`;
+* a peer that stops reading (`pause_reading()` on its end) clogs the connection: what arrives for it is kept (its
+  kernel receive buffer); the writer's bytes count as unread, and once `fabric.kernel_buffer` bytes (socket buffers of
+  both hosts together, default 64 KiB) are unread, further writes stay in the writer's user-space buffer
+  (`get_write_buffer_size()`), as they do in `_SelectorSocketTransport.write`; above the high-water mark (64 KiB)
+  `protocol.pause_writing()` is called once, `resume_writing()` when the buffer has drained. With a non-empty buffer
+  `close()` only sets closing and stops reading: `connection_lost` is not called and no EOF reaches the peer until the
+  buffer has drained (event "close-pending"; never, if the peer never reads again), the accepted connection keeps
+  its server's `wait_closed()` waiting, and `write()` still appends to the buffer (CPython checks `_conn_lost`, not
+  `_closing`; such writes are recorded as writes). `abort()` throws the buffer away and closes at once. Simplifications:
+  a write is buffered or sent as a whole, and whether the peer reads is looked at in the instant of the write, not one
+  link delay earlier;
 * an exception leaving `data_received` goes to the loop's exception handler as "Fatal error: protocol.data_received()
   call failed." and the transport is force-closed (`_fatal_error`), an `OSError` only closes;
 * `Server.close()` stops accepting, `wait_closed()` returns once the server is closed *and* all connections it accepted
@@ -41,7 +53,7 @@ import errno
 
 Ev = collections.namedtuple("Ev", "t kind conn side owner data")
 # kinds: connect refused timeout connect-cancelled established accepting accepted made write late-write deliver dropped
-#        close abort reset force-close eof lost fatal listen unlisten
+#        close close-pending abort reset force-close eof lost fatal listen unlisten pause-writing resume-writing
 
 
 class StreamEnd(asyncio.Transport):
@@ -73,6 +85,12 @@ class StreamEnd(asyncio.Transport):
         self.prebuffer = []  # arrived before the protocol was attached
         self.received = bytearray()
         self.reading = True
+        self.held = collections.deque()  # arrived while this end was not reading (kernel receive buffer)
+        self.unread = 0  # bytes sent from here that the other end has not consumed yet
+        self.wbuf = []  # user-space write buffer: chunks that the kernel would not take
+        self.wbuf_size = 0
+        self.close_pending = False  # close() called while the write buffer was not empty
+        self.writing_paused = False
         self._extra = {"sockname": sockname, "peername": peername, "ssl_object": None, "socket": None}
 
     def __repr__(self):
@@ -101,13 +119,22 @@ class StreamEnd(asyncio.Transport):
         self.reading = False
 
     def resume_reading(self):
+        if self.reading or self.closing:
+            return
         self.reading = True
+        held, self.held = self.held, collections.deque()
+        for item in held:
+            self.loop.call_soon(self._deliver, item)
+        if self.peer is not None:
+            self.loop.call_soon(self.peer._flush)
 
     def get_write_buffer_size(self):
-        return 0
+        return self.wbuf_size
 
     def get_write_buffer_limits(self):
-        return (0, 65536)
+        return (self.LOW_WATER, self.HIGH_WATER)
+
+    LOW_WATER, HIGH_WATER = 16384, 65536
 
     def set_write_buffer_limits(self, high=None, low=None):
         pass
@@ -124,11 +151,27 @@ class StreamEnd(asyncio.Transport):
         data = bytes(data)
         if not data:
             return
-        if self.closing:
+        if self.closing and not self.close_pending:
             self.late.append((self._log("late-write", data), self.loop.time(), data))
             return
         self.out += data
         self.writes.append((self._log("write", data), self.loop.time(), data))
+        p = self.peer
+        if self.wbuf or (p is not None and not p.reading and self.unread >= self.fabric.kernel_buffer):
+            # the kernel takes no more: the bytes stay with the transport
+            self.wbuf.append(data)
+            self.wbuf_size += len(data)
+            if self.wbuf_size > self.HIGH_WATER and not self.writing_paused:
+                self.writing_paused = True
+                self._log("pause-writing", self.wbuf_size)
+                try:
+                    self.protocol.pause_writing()
+                except (SystemExit, KeyboardInterrupt):
+                    raise
+                except BaseException as exc:
+                    self.loop.call_exception_handler({"message": "protocol.pause_writing() failed", "exception": exc, "transport": self, "protocol": self.protocol})
+            return
+        self.unread += len(data)
         self._to_peer(("data", data))
 
     def writelines(self, lines):
@@ -140,6 +183,11 @@ class StreamEnd(asyncio.Transport):
             return
         self.closing = True
         self.t_closing = self.loop.time()
+        if self.wbuf:
+            # _SelectorTransport.close(): the reader is removed; connection_lost waits for the buffer to drain
+            self.close_pending = True
+            self._log("close-pending", self.wbuf_size)
+            return
         self._log("close")
         self._schedule_lost(None)
         self._to_peer(("eof",))
@@ -156,9 +204,33 @@ class StreamEnd(asyncio.Transport):
         p.inbox.append(item)
         self.loop.call_later(self.fabric.delay_of(self), p._deliver_next)
 
+    def _flush(self):
+        """the other end reads again: the kernel takes what was buffered"""
+        if self.lost_scheduled or not self.wbuf:
+            return
+        chunks, self.wbuf, self.wbuf_size = self.wbuf, [], 0
+        for data in chunks:
+            self.unread += len(data)
+            self._to_peer(("data", data))
+        if self.writing_paused:
+            self.writing_paused = False
+            self._log("resume-writing")
+            try:
+                self.protocol.resume_writing()
+            except (SystemExit, KeyboardInterrupt):
+                raise
+            except BaseException as exc:
+                self.loop.call_exception_handler({"message": "protocol.resume_writing() failed", "exception": exc, "transport": self, "protocol": self.protocol})
+        if self.close_pending:
+            self.close_pending = False
+            self._log("close")
+            self._schedule_lost(None)
+            self._to_peer(("eof",))
+
     def _force_close(self, exc, kind="abort"):
         if self.lost_scheduled:
             return
+        self.wbuf, self.wbuf_size, self.close_pending = [], 0, False
         if not self.closing:
             self.closing = True
             self.t_closing = self.loop.time()
@@ -221,6 +293,11 @@ class StreamEnd(asyncio.Transport):
                 self.loop.call_soon(self._deliver, item)
 
     def _deliver(self, item):
+        if not self.reading and not self.closing:
+            self.held.append(item)
+            return
+        if item[0] == "data" and self.peer is not None:
+            self.peer.unread -= len(item[1])
         if self.closing:
             # a closed socket is not read any more (the kernel answers with RST; nobody looks)
             if item[0] == "data":
@@ -312,15 +389,17 @@ class SimServer(asyncio.AbstractServer):
 
 
 class Fabric:
-    def __init__(self, loop, delay=0.001, connect_rtt=None, syn_timeout=127.0):
+    def __init__(self, loop, delay=0.001, connect_rtt=None, syn_timeout=127.0, kernel_buffer=65536):
         self.loop = loop
         self.delay = delay  # one-way link delay; float or f(host_a, host_b) -> float
         self.connect_rtt = connect_rtt  # duration of the handshake as the connecting side sees it (default: 2 * delay)
         self.syn_timeout = syn_timeout
+        self.kernel_buffer = kernel_buffer  # bytes a connection takes towards an end that does not read
         self.log = []
         self.fatal = []  # exceptions that left data_received / eof_received
         self.listeners = {}  # (host, port) -> SimServer
         self.blackholes = set()  # hosts that never answer a SYN
+        self.slow_names = {}  # host name -> (seconds its resolution inside create_connection takes, address)
         self.ends = []  # every StreamEnd ever made
         self.connects = []  # dicts: conn, owner, dst, t_start, log index, state pending|established|refused|timeout|cancelled, t_end
         self.dest_owner = lambda host, port: None  # who is it that connects to (host, port) through loop.create_connection
@@ -403,14 +482,21 @@ class Fabric:
         rec = {"conn": cid, "owner": owner, "dst": (host, port), "t_start": loop.time(), "state": "pending", "t_end": None, "end": None}
         rec["log"] = self.record("connect", cid, "c", owner, (host, port))
         self.connects.append(rec)
+        target = host
         try:
-            if host in self.blackholes:
+            slow = self.slow_names.get(host)
+            if slow is not None:
+                # loop.create_connection resolves the name first (getaddrinfo in an executor thread)
+                await asyncio.sleep(slow[0])
+                target = slow[1]
+                self.record("resolved", cid, "c", owner, (host, target))
+            if target in self.blackholes:
                 await asyncio.sleep(self.syn_timeout)
                 rec.update(state="timeout", t_end=loop.time())
                 self.record("timeout", cid, "c", owner, (host, port))
                 raise TimeoutError(errno.ETIMEDOUT, "Connect call failed %r" % ((host, port),))
-            await asyncio.sleep(self._rtt(local[0], host))
-            srv = self.listeners.get((host, port))
+            await asyncio.sleep(self._rtt(local[0], target))
+            srv = self.listeners.get((target, port))
             if srv is None:
                 rec.update(state="refused", t_end=loop.time())
                 self.record("refused", cid, "c", owner, (host, port))
@@ -419,8 +505,8 @@ class Fabric:
             rec.update(state="cancelled", t_end=loop.time())
             self.record("connect-cancelled", cid, "c", owner, (host, port))
             raise
-        cend = StreamEnd(self, cid, "c", owner, local, (host, port))
-        send = StreamEnd(self, cid, "s", srv.owner, (host, port), local, server=srv)
+        cend = StreamEnd(self, cid, "c", owner, local, (target, port))
+        send = StreamEnd(self, cid, "s", srv.owner, (target, port), local, server=srv)
         cend.peer, send.peer = send, cend
         self.ends += [cend, send]
         srv.accepted.append(send)
